@@ -711,6 +711,83 @@ pub fn check_rand(c: &RandCase) -> Result<CaseInfo, Failure> {
     run_isolated("C07", c.clone(), &run_rand)
 }
 
+/// The connection ends while the application's handshake service is still deciding; the handshake then accepts.
+/// An accepted connection is a connection: its control service is told exactly once that the peer is gone, and the
+/// connection task finishes.
+#[derive(Clone, Copy, Debug, PartialEq, Eq, Hash, Serialize, Deserialize)]
+pub struct HsCase {
+    pub role: Role,
+    /// 0 = the peer closes, 1 = read error
+    pub how: u8,
+    /// a publish is pipelined behind the CONNECT
+    pub pipelined: bool,
+}
+
+pub async fn run_hs(x: HsCase) -> Result<CaseInfo, Failure> {
+    use crate::bed::any::{Cfg, Eut};
+    use crate::spec::v5::{self as s5, P5};
+    let ff = |rule: &str, detail: String| Failure::new(rule, format!("C07/{}/{rule}", x.role.name()), detail);
+    let cfg = Cfg::default();
+    let eut = Eut::start(x.role, &cfg).await;
+    let app = eut.app().clone();
+    app.hold(G_HS, 0);
+    let connect = if x.role.is_v5() { P5::Connect(Box::new(cfg.v5.connect.clone())) } else { crate::bed::any::up(&crate::spec::v3::P3::Connect(Box::new(cfg.v3.connect.clone()))) };
+    let mut bytes = eut.encode(&connect, &[]);
+    if x.pipelined {
+        bytes.extend(eut.encode(&P5::Publish(Box::new(s5::Publish5 { qos: 0, topic: "t/a".into(), payload_len: 1, ..Default::default() })), &[1]));
+    }
+    eut.peer().send(&bytes);
+    eut.settle().await;
+    // the peer goes away while the handshake service is thinking
+    if x.how == 0 {
+        eut.peer().close();
+    } else {
+        eut.peer().read_error();
+    }
+    eut.settle().await;
+    if !app.stops().is_empty() {
+        return Err(ff("stop-before-handshake-completed", format!("the control service saw {:?} before the handshake service had accepted the connection", app.stops())));
+    }
+    app.open(G_HS, 0);
+    eut.settle().await;
+    app.open_all();
+    eut.settle().await;
+    let accepted = app.events().iter().any(|e| matches!(e, Ev::Handshake));
+    if !accepted {
+        // the library dropped the connection without asking / before the handshake service returned: nothing was accepted
+        eut.finish().await;
+        return Ok(CaseInfo::trivial().label("handshake-not-accepted"));
+    }
+    let stops = app.stops();
+    if stops.len() != 1 {
+        return Err(Failure::new(
+            "stop-count",
+            format!("C07/{}/stop-count/{}", x.role.name(), stops.len().min(2)),
+            format!("the peer went away ({}) while the handshake service was running, the handshake service then accepted the connection: the control service of that connection saw {} Stop notifications {stops:?}; events {:?}", if x.how == 0 { "close" } else { "read error" }, stops.len(), brief_events(&app.events())),
+        ));
+    }
+    if class_of(&stops[0]) != Class::Gone {
+        return Err(ff("stop-class", format!("expected a peer-gone stop, the control service saw {:?}", stops[0])));
+    }
+    eut.finish().await;
+    if eut.done().is_none() {
+        return Err(ff("connection-task-not-finished", format!("the connection task has not finished; stops {stops:?}")));
+    }
+    Ok(CaseInfo::nontrivial(&x).label("peer-gone-during-handshake"))
+}
+
+pub fn hs_cases() -> Vec<HsCase> {
+    let mut out = Vec::new();
+    for role in [Role::V3Server, Role::V5Server] {
+        for how in 0..2u8 {
+            for pipelined in [false, true] {
+                out.push(HsCase { role, how, pipelined });
+            }
+        }
+    }
+    out
+}
+
 pub fn run(ctx: &Ctx, started: Instant) -> i32 {
     let thorough = ctx.tier == Tier::Thorough;
     let cases = all_cases(thorough);
@@ -729,6 +806,11 @@ pub fn run(ctx: &Ctx, started: Instant) -> i32 {
     });
     let mut stats = stats;
     stats.merge(rnd);
+    {
+        let mut st = Stats::default();
+        run_list_bed("C07", hs_cases(), &mut st, |x| json!({"hs": x}), run_hs);
+        stats.merge(st);
+    }
     let names: Vec<&str> = (0..SCENARIOS as u8).map(|k| scenario(k, Role::V5Server).0).collect();
     let report = Report {
         level: "fault_enumeration",
@@ -738,7 +820,7 @@ pub fn run(ctx: &Ctx, started: Instant) -> i32 {
              servers: failing protocol handler; servers, after the last step of each scenario, in real time: keep-alive expiry (handshake keep-alive 1 s, silent peer); clients with keep-alive 1 s, in real time: application close with a teardown of 1.3 s}} x Stop notification handled at once / held open / answered with an error x four roles; for peer close and read error additionally every byte offset 1..39 inside the inbound packet being delivered (quick: scenarios 0-2 and 7; thorough: all). \
              Oracle: exactly one Stop of the class the cause demands (protocol / application error / peer gone; a cause that cannot take effect because its bytes land in an owed payload or nothing is written falls back to a peer close), no control call after it, every owned \
              send/ready/release/chunk future resolved, no clean end of an incomplete payload, every handler finished or dropped and none dropped before the held Stop was handled, connection task finished, no panic. \
-             In addition proptest-generated base histories of 2..17 sink / inbound operations (the operation set of C08 without closes) on send windows 1..3, ended by a generated cause, under the same oracle. \
+             In addition: the peer going away while the handshake service is still deciding, the handshake then accepting (servers). And proptest-generated base histories of 2..17 sink / inbound operations (the operation set of C08 without closes) on send windows 1..3, ended by a generated cause, under the same oracle. \
              Non-trivial = a handler, future or payload reader was pending (or a packet half delivered) when the fault landed; distinct = grid cell / (cause, history)"
         ),
         exhaustive: true,
@@ -755,6 +837,10 @@ pub fn replay(path: &str) -> i32 {
     let case = super::load_case(path);
     if !case["rand"].is_null() {
         let res = serde_json::from_value::<RandCase>(case["rand"].clone()).map_err(|e| e.to_string()).map(|c| run_isolated("C07", c, &run_rand));
+        return super::report_replay("C07", path, res);
+    }
+    if !case["hs"].is_null() {
+        let res = serde_json::from_value::<HsCase>(case["hs"].clone()).map_err(|e| e.to_string()).map(|c| run_isolated("C07", c, &run_hs));
         return super::report_replay("C07", path, res);
     }
     let res = serde_json::from_value::<Case>(case["case"].clone()).map_err(|e| e.to_string()).map(|c| check_case(&c));
